@@ -21,7 +21,7 @@ structure WfPrims (P : Prims) : Prop where
   hmacBytes : ∀ h k m, Bytes (P.hmac h k m)
   hmacLen : ∀ h k m, h ∈ ["S256", "S384", "S512"] → (P.hmac h k m).length = hashLen h
   ecBytes : ∀ crv d dig rnd r s, P.ecdsaSign crv d dig rnd = some (r, s) → Bytes r ∧ Bytes s
-  rsaBytes : ∀ pss h n d m salt sg, P.rsaSign pss h n d m salt = some sg → Bytes sg
+  rsaBytes : ∀ pss h k m salt sg, P.rsaSign pss h k m salt = some sg → Bytes sg
 
 /-- ECDSA correctness for one key pair: what is signed verifies, r and s have the curve's width -/
 def EcGood (P : Prims) (crv : String) (x y d : Bs) : Prop :=
@@ -29,8 +29,8 @@ def EcGood (P : Prims) (crv : String) (x y d : Bs) : Prop :=
     (∀ len, crvLen crv = some len → r.length = len ∧ s.length = len) ∧ P.ecdsaVerify crv x y dig r s = true
 
 /-- RSASSA correctness for one key -/
-def RsaGood (P : Prims) (n e d : Bs) : Prop :=
-  ∀ pss h m salt sg, P.rsaSign pss h n d m salt = some sg → P.rsaVerify pss h n e m sg = true
+def RsaGood (P : Prims) (k : RsaPriv) : Prop :=
+  ∀ pss h m salt sg, P.rsaSign pss h k m salt = some sg → P.rsaVerify pss h k.n k.e m sg = true
 
 /-- the JSON layer's law for one protected header: what is dumped, encoded, decoded and
     parsed again is the same object (checked on jansson by the b64.enc_dump/dec_load operations) -/
@@ -258,7 +258,7 @@ theorem sign_then_verify (P : Prims) (hwf : WfPrims P) (s jwk : Json) (pay rnd :
     (hmay : ∀ a ∈ signAlgs, Jwk.prm (some jwk) false a.p2 = true)
     (hload : ∀ a s1 p, findAlgSig s jwk = some (a, s1) → s1.get? "protected" = some (.obj p) → LoadDump p)
     (hec : ∀ key d, ecKeyOf P jwk = some key → key.d = some d → EcGood P key.crv key.x key.y d)
-    (hrsa : ∀ key d, rsaSigKey jwk = some key → key.d = some d → RsaGood P key.n key.e d) :
+    (hrsa : ∀ key, rsaSigKey jwk = some key → RsaGood P key.priv) :
     pairOk P e jwk pay = true := by
   obtain ⟨hobj, a, s1, kvs2, f, pre, sv, h1, h2, h3, h4, h5, rfl, h7⟩ := sigEntry_spec P s jwk pay rnd e h
   obtain ⟨g1, ⟨hdr1, g2, g3⟩, ⟨kalg, g4, g5⟩, g6, _, _, _⟩ := findAlgSig_spec s jwk a s1 hobj h1
@@ -318,14 +318,15 @@ theorem sign_then_verify (P : Prims) (hwf : WfPrims P) (s jwk : Json) (pay rnd :
       | rsa pss hs =>
         simp only [hfam, Option.map_eq_some_iff] at h3
         obtain ⟨key, hk, rfl⟩ := h3
-        cases hd : key.d with
-        | none => simp [hd] at h5
-        | some d =>
-          simp only [hd] at h5
-          have hver := hrsa key d hk hd pss hs (pre ++ pay) rnd sv h5
+        cases hd : key.hasPriv with
+        | false => simp [hd] at h5
+        | true =>
+          simp only [hd, if_true] at h5
+          have hver := hrsa key hk pss hs (pre ++ pay) rnd sv h5
+          simp only [RsaKey.priv] at hver
           simp only [rsaVer, hk, Option.map_some]
           refine ⟨_, rfl, ?_⟩
-          simp only [sigBytes_set kvs2 _ (hwf.rsaBytes pss hs key.n d _ rnd sv h5), hver]
+          simp only [sigBytes_set kvs2 _ (hwf.rsaBytes pss hs key.priv _ rnd sv h5), hver]
   obtain ⟨f', hf', hok⟩ := hleaf
   have hprm := hmay a (findSign_mem a.name a g1)
   simp only [pairOk, verOne, Json.isObject, Bool.not_true, Bool.false_eq_true, if_false, g4, hhdr, g2, g3, hsel, g1,
